@@ -263,6 +263,14 @@ fn generate_deserialize_with_derive(
             .attrs
             .push(parse_quote!(#[serde(rename = #qualified_name)]));
 
+        // A variant without fields carries no parameters: accept `parameters` being absent,
+        // `null` or an empty object.
+        if matches!(variant.fields, Fields::Unit) {
+            variant
+                .attrs
+                .push(parse_quote!(#[serde(deserialize_with = "__zlink_no_parameters")]));
+        }
+
         // Add serde rename attributes to fields based on their serialized names.
         if let (Fields::Named(fields), Some(field_info)) = (&mut variant.fields, field_info) {
             for (field, name_str) in fields.named.iter_mut().zip(&field_info.name_strings) {
@@ -331,6 +339,49 @@ fn generate_deserialize_with_derive(
             where
                 D: serde::Deserializer<'de>,
             {
+                #[allow(dead_code)]
+                fn __zlink_no_parameters<'__de, __D>(
+                    deserializer: __D,
+                ) -> core::result::Result<(), __D::Error>
+                where
+                    __D: serde::Deserializer<'__de>,
+                {
+                    struct NoParameters;
+
+                    impl<'__de> serde::de::Visitor<'__de> for NoParameters {
+                        type Value = ();
+
+                        fn expecting(
+                            &self,
+                            formatter: &mut core::fmt::Formatter<'_>,
+                        ) -> core::fmt::Result {
+                            formatter.write_str("no parameters")
+                        }
+
+                        fn visit_unit<__E>(self) -> core::result::Result<(), __E> {
+                            Ok(())
+                        }
+
+                        fn visit_none<__E>(self) -> core::result::Result<(), __E> {
+                            Ok(())
+                        }
+
+                        fn visit_map<__A>(self, mut map: __A) -> core::result::Result<(), __A::Error>
+                        where
+                            __A: serde::de::MapAccess<'__de>,
+                        {
+                            match map.next_key::<serde::de::IgnoredAny>()? {
+                                None => Ok(()),
+                                Some(_) => Err(serde::de::Error::custom(
+                                    "unexpected parameters for an error without fields",
+                                )),
+                            }
+                        }
+                    }
+
+                    deserializer.deserialize_any(NoParameters)
+                }
+
                 #[derive(serde::Deserialize)]
                 #[serde(tag = "error", content = "parameters")]
                 enum __ZlinkDeserHelper #orig_impl_generics #orig_where_clause {
